@@ -151,29 +151,18 @@ use crate::im_set::HashSet;
     ensures
         // a rearrangement of the start depot nodes ...
         r@.to_multiset() == self.start_depot_nodes@.to_multiset(), // @obl C02.start_depots_sorted.rearrangement_of_start_depot_nodes
-        r@.len() == self.start_depot_nodes@.len(),
-        forall|x: NodeIdx| #[trigger] r@.contains(x) <==> self.start_depot_nodes@.contains(x),
-        forall|i: int| 0 <= i < r@.len() ==> self.start_depot_nodes@.contains(#[trigger] r@[i]),
         // ... in ascending order of the dead-head distance from the node to the location; equally distant nodes in list order
         self.sorted_to(r@, location), // @obl C02.start_depots_sorted.ascending_distance_to_location
         self.ties_to(r@, location), // @obl C02.start_depots_sorted.ties_in_list_order
-        // (all of it in one predicate)
-        self.is_start_depots_by_distance(r@, location),
-//@closure-params 0
+//@closure-params? 0
     &NodeIdx
-//@closure 0
-    -> (k: Distance) requires self.has(*p0) ensures k == self.dist_to(*p0, location)
-//@before "depots.sort_by_key"
+//@closure? 0
+    -> (k: Distance) requires self.has(*p0) ensures k == self.dist_to(*p0, location) /* @obl C02.start_depots_sorted.ascending_distance_to_location */
+//@after "let mut depots"
         let ghost list = self.start_depot_nodes@;
-        proof { assert(depots@ =~= list); }
-//@after "depots.sort_by_key"
         proof {
-            lemma_perm_members(depots@, list);
+            assert(depots@ =~= list); // @obl C02.start_depots_sorted.rearrangement_of_start_depot_nodes
             reveal(Network::ties_to);
-            assert forall|i: int, j: int| #![trigger depots@[i], depots@[j]] 0 <= i < j < depots@.len()
-                implies dist_le(self.dist_to(depots@[i], location), self.dist_to(depots@[j], location)) by {} // @obl C02.start_depots_sorted.ascending_distance_to_location
-            assert forall|i: int, j: int| #![trigger depots@[i], depots@[j]] 0 <= i < j < depots@.len() && self.dist_to(depots@[i], location) == self.dist_to(depots@[j], location)
-                implies listed_before(list, depots@[i], depots@[j]) by {} // @obl C02.start_depots_sorted.ties_in_list_order
         }
 //@end
 //@item model/src/network.rs Network::end_depots_sorted_by_distance_from
@@ -182,29 +171,18 @@ use crate::im_set::HashSet;
     requires self.wf(), self.locations.has(location), all_in_net(self, self.end_depot_nodes@),
     ensures
         r@.to_multiset() == self.end_depot_nodes@.to_multiset(), // @obl C13.end_depots_sorted.rearrangement_of_end_depot_nodes
-        r@.len() == self.end_depot_nodes@.len(),
-        forall|x: NodeIdx| #[trigger] r@.contains(x) <==> self.end_depot_nodes@.contains(x),
-        forall|i: int| 0 <= i < r@.len() ==> self.end_depot_nodes@.contains(#[trigger] r@[i]),
         // ... in ascending order of the dead-head distance from the location to the node; equally distant nodes in list order
         self.sorted_from(r@, location), // @obl C13.end_depots_sorted.ascending_distance_from_location
         self.ties_from(r@, location), // @obl C13.end_depots_sorted.ties_in_list_order
-        // (all of it in one predicate)
-        self.is_end_depots_by_distance(r@, location),
-//@closure-params 0
+//@closure-params? 0
     &NodeIdx
-//@closure 0
-    -> (k: Distance) requires self.has(*p0) ensures k == self.dist_from(location, *p0)
-//@before "depots.sort_by_key"
+//@closure? 0
+    -> (k: Distance) requires self.has(*p0) ensures k == self.dist_from(location, *p0) /* @obl C13.end_depots_sorted.ascending_distance_from_location */
+//@after "let mut depots"
         let ghost list = self.end_depot_nodes@;
-        proof { assert(depots@ =~= list); }
-//@after "depots.sort_by_key"
         proof {
-            lemma_perm_members(depots@, list);
+            assert(depots@ =~= list); // @obl C13.end_depots_sorted.rearrangement_of_end_depot_nodes
             reveal(Network::ties_from);
-            assert forall|i: int, j: int| #![trigger depots@[i], depots@[j]] 0 <= i < j < depots@.len()
-                implies dist_le(self.dist_from(location, depots@[i]), self.dist_from(location, depots@[j])) by {} // @obl C13.end_depots_sorted.ascending_distance_from_location
-            assert forall|i: int, j: int| #![trigger depots@[i], depots@[j]] 0 <= i < j < depots@.len() && self.dist_from(location, depots@[i]) == self.dist_from(location, depots@[j])
-                implies listed_before(list, depots@[i], depots@[j]) by {} // @obl C13.end_depots_sorted.ties_in_list_order
         }
 //@end
 
@@ -297,11 +275,12 @@ use crate::im_set::HashSet;
             assert(all_in_net(&self.network, self.network.start_depot_nodes@));
             // whatever list of the start depot nodes in ascending distance is searched: the admission check may be asked for
             // every item, some item is accepted (C06), and the first accepted item is the nearest start depot with room (C02)
-            assert forall|s: Seq<NodeIdx>| #[trigger] self.network.is_start_depots_by_distance(s, loc) implies self.choice_facts(s, vehicle_type_idx, loc, depot_usage@) by {
+            assert forall|s: Seq<NodeIdx>| s.to_multiset() == self.network.start_depot_nodes@.to_multiset() && #[trigger] self.network.sorted_to(s, loc) && self.network.ties_to(s, loc)
+                implies self.choice_facts(s, vehicle_type_idx, loc, depot_usage@) by {
                 lemma_choice(self, s, vehicle_type_idx, loc, depot_usage@); // @obl C02.find_best_start_depot.nearest_depot_with_room
             }
             // the items of `.iter().copied()` are that list
-            assert forall|s: Seq<NodeIdx>, c: Seq<NodeIdx>| #![trigger self.network.is_start_depots_by_distance(s, loc), c.len()]
+            assert forall|s: Seq<NodeIdx>, c: Seq<NodeIdx>| #![trigger self.network.sorted_to(s, loc), c.len()]
                 c.len() == s.len() && (forall|i: int| 0 <= i < c.len() ==> #[trigger] c[i] == s[i]) implies c == s by { assert(c =~= s); }
         }
 //@end
@@ -331,7 +310,7 @@ use crate::im_set::HashSet;
         proof {
             lemma_node_locations(&self.network, last_node);
             // whatever list of the end depot nodes in ascending distance is asked for its first item
-            assert forall|s: Seq<NodeIdx>| #[trigger] self.network.is_end_depots_by_distance(s, end_location)
+            assert forall|s: Seq<NodeIdx>| s.to_multiset() == self.network.end_depot_nodes@.to_multiset() && #[trigger] self.network.sorted_from(s, end_location) && self.network.ties_from(s, end_location)
                 implies s.len() == self.network.end_depot_nodes@.len() && (s.len() > 0 ==> self.network.nearest_end_depot(s[0], end_location)) by {
                 lemma_first_is_nearest(&self.network, s, end_location); // @obl C13.find_best_end_depot.nearest_end_depot_capacities_ignored
             }
